@@ -158,4 +158,36 @@ theorem argv_env_exact_command (line : Str) (h : ∀ c ∈ line, c ≠ 0) (strea
 example : openCommand [120, 32, 34, 97, 32, 98, 34] 5 [([75], [118])] =
     some { file := [120], argv := [[120], [97, 32, 98]], env := some [[75, 61, 118]], pipes := 5 } := by decide
 
+
+/-! ### the Process object: pid and descriptors with 0 = closed -/
+
+/-- after every history of calls on a Process object: when no child is running (pid = 0) no pipe
+    descriptor is held any more -/
+theorem proc_idle_holds_no_pipe (ops : List POp) :
+    (Proc.init.run ops).running = false →
+      (Proc.init.run ops).out = false ∧ (Proc.init.run ops).err = false ∧ (Proc.init.run ops).inp = false := by
+  have inv : ∀ (ops : List POp) (s : Proc), (s.running = false → s.out = false ∧ s.err = false ∧ s.inp = false) →
+      ((s.run ops).running = false → (s.run ops).out = false ∧ (s.run ops).err = false ∧ (s.run ops).inp = false) := by
+    intro ops
+    induction ops with
+    | nil => intro s h; exact h
+    | cons op ops ih =>
+      intro s h
+      apply ih
+      obtain ⟨r, o, e, i⟩ := s
+      cases op <;> cases r <;> simp_all [Proc.step, Proc.init]
+  exact inv ops Proc.init (by simp [Proc.init])
+
+/-- start/open on an object whose child has not been joined fail and change nothing; join/kill
+    without a child fail; join/kill with a child succeed and leave the initial state -/
+theorem proc_start_join_rules (s : Proc) (m : Nat) :
+    (s.running = true → s.step .start = (s, false) ∧ s.step (.openp m) = (s, false) ∧
+        s.step .join = (Proc.init, true) ∧ s.step .kill = (Proc.init, true)) ∧
+    (s.running = false → s.step .join = (s, false) ∧ s.step .kill = (s, false) ∧
+        s.step (.openp m) = (⟨true, bit m 1, bit m 2, bit m 4⟩, true)) := by
+  obtain ⟨r, o, e, i⟩ := s
+  cases r <;> simp [Proc.step]
+
+example : (Proc.init.run [.openp 5, .close 4, .isRunning]) = ⟨true, true, false, false⟩ := by decide
+
 end Nstd.Args
